@@ -195,9 +195,25 @@ def compose(rng, ast, pkgbase, use_components=True, use_bases=True, use_prefixes
                 c.features.add("components:self-import")
         if relpkg:
             c.features.add("prefix:relative-package")
-        for comp in (comp_c, comp_a, comp_b):
+        comp_d = None
+        if use_prefixes and len(parts[pb]) >= 2 and rng.random() < 0.5:
+            # a component with a prefix of its own that names the next package relative to it: the
+            # first types of B move on to a package D next to it, which B imports as '.d'
+            pd = pkgbase + ".sub.d"
+            kd = rng.randint(1, len(parts[pb]) - 1)
+            comp_d = {"abstract": [], "types": parts[pb][:kd], "imports": [pc, (pa, fa) if fa != "component.xml" else pa]}
+            comp_b["types"] = parts[pb][kd:]
+            comp_b["imports"] = list(comp_b["imports"]) + [".d"]
+            comp_b["prefix"] = pkgbase + ".sub"
+            c.features.add("prefix:relative-package-inside-component")
+        for comp in (comp_c, comp_a, comp_b) + ((comp_d,) if comp_d else ()):
             if use_prefixes:
-                c.features |= apply_prefixes(rng, comp)
+                if comp is comp_b and comp_d:
+                    c.features |= apply_prefixes(rng, comp, outer=comp_b["prefix"])
+                else:
+                    c.features |= apply_prefixes(rng, comp)
+        if comp_d:
+            c.packages[pd] = {"component.xml": gen.render_schema(comp_d, root="component")}
         c.packages[pc] = {"component.xml": gen.render_schema(comp_c, root="component")}
         c.packages[pa] = {fa: gen.render_schema(comp_a, root="component")}
         c.packages[pb] = {"component.xml": gen.render_schema(comp_b, root="component")}
